@@ -396,8 +396,8 @@ func c03Race() []RaceBody {
 									errs <- fmt.Errorf("put %s failed with a non-connection error: %v", key, res.Error)
 								}
 							}
-						case <-time.After(20 * time.Second):
-							errs <- fmt.Errorf("put %s was never completed", key)
+						case <-time.After(raceWait):
+							errs <- fmt.Errorf("put %s was never completed\n%s", key, allStacks())
 							return
 						}
 						select {
